@@ -99,8 +99,10 @@ pub fn compare_run(report: &mut Report, sig_prefix: &str, case: &Value, real: &R
     let mut diffs = 0;
     let rt = canon_trace(&real.trace);
     let mt = canon_trace(&model.trace);
-    let rm: Vec<String> = rt.iter().filter(|l| is_mutating_line(l)).cloned().collect();
-    let mm: Vec<String> = mt.iter().filter(|l| is_mutating_line(l)).cloned().collect();
+    // binding part: the mutating operations only (filtered first, so that reads in between do
+    // not split a run), canonicalised
+    let rm: Vec<String> = canon_trace(&real.trace.iter().filter(|l| is_mutating_line(l)).cloned().collect::<Vec<_>>());
+    let mm: Vec<String> = canon_trace(&model.trace.iter().filter(|l| is_mutating_line(l)).cloned().collect::<Vec<_>>());
     if rm != mm {
         diffs += 1;
         report.disagree(&format!("{sig_prefix}:mutating-trace"), case.clone(), first_diff(&rm, &mm), json!("see impl/model in diff"));
@@ -109,7 +111,8 @@ pub fn compare_run(report: &mut Report, sig_prefix: &str, case: &Value, real: &R
     }
     if !o.crashed {
         // panics: only the fact is compared, messages are free text
-        let norm = |r: &str| if r.starts_with("result panic") { "result panic".to_string() } else { r.trim_end().to_string() };
+        // several concurrent block-subdirectory listings failing: which error wins is a race
+        let norm = |r: &str| if r.starts_with("result panic") { "result panic".to_string() } else if r.starts_with("result err list-blocks:") { "result err list-blocks".to_string() } else { r.trim_end().to_string() };
         if !o.skip_result && norm(&real.result) != norm(&model.result) {
             diffs += 1;
             report.disagree(&format!("{sig_prefix}:result"), case.clone(), json!(trunc(&real.result)), json!(trunc(&model.result)));
